@@ -13,13 +13,15 @@ ID = 'C14'
 RULE = ('well-formed trees: bounded-exhaustive small trees (as C02) under default and no-op, seeded '
         'random trees (deep nesting to 25, concept-less nodes with edges, inverted re-entrancies, '
         'several closes on one triple) under default, AMR, mini-AMR, random tables; every decoded '
-        'graph is also stripped of its markers for the no-raise clause. Non-trivial: >=2 nodes.')
+        'graph is also stripped of its markers for the no-raise clause; layout twins (same top and '
+        'triple order, a re-entrancy written inverted outside vs. plainly inside the nested node) are '
+        'queried alternately. Non-trivial: >=2 nodes.')
 PROBES = {'C17': 40}
 ANCHORS = ['penman.layout:node_contexts', 'penman.layout:appears_inverted',
            'penman.layout:get_pushed_variable']
 MIN_EVAL = {'quick': 3000, 'thorough': 100000}
 REQUIRED_COUNTERS = ['wf_trees', 'feature:inverted-reentrancy', 'feature:conceptless-with-edges',
-                     'requeried_after_twin']
+                     'requeried_after_twin', 'layout_twins']
 MODELS_RANDOM = ['default', 'amr', 'mini', 'default', 'amr', 'noop'] + [f'rand{i}' for i in range(6)]
 
 
@@ -85,6 +87,14 @@ def oracle(ctx, kind, p):
                 # decoded graph must not change
                 _trees.c14(ctx, node, mname)
                 ctx.count('requeried_after_twin')
+        if p['i'] % 3 == 0 and not rm.noop:
+            # twins: same top, same triples in the same order, other layout - asked alternately
+            tw = _trees.make_twins(rng, node)
+            if tw and _trees.wellformed(tw[0], rm) and _trees.wellformed(tw[1], rm):
+                for nd in (tw[0], tw[1], tw[0], tw[1]):
+                    ctx.current = _trees.payload(nd, mname)
+                    _trees.c14(ctx, nd, mname)
+                ctx.count('layout_twins')
         f = T.features(node, rm)
         ctx.case(ctx.current, len(T.nodes(node)) >= 2)
         ctx.count('wf_trees')
